@@ -28,6 +28,15 @@ func NewRand(seed int64) *Rand {
 	z = (z ^ (z >> 27)) * 0x94D049BB133111EB
 	return &Rand{s: z ^ (z >> 31)}
 }
+
+// NewRandStream derives the PRNG of sub-check `stream` from the run seed; different (seed, stream)
+// pairs never share a state, whatever their sums are.
+func NewRandStream(seed int64, stream int64) *Rand {
+	a := NewRand(seed).U64()
+	b := NewRand(stream ^ 0x5bd1e995).U64()
+	return &Rand{s: a ^ (b<<1 | b>>63)}
+}
+
 func (r *Rand) U64() uint64 {
 	r.s += 0x9E3779B97F4A7C15
 	z := r.s
